@@ -674,6 +674,20 @@ func shipAndCheck(codec encoding.Codec, raw []byte, want [][]byte, cuts []int) (
 	} else {
 		compare("reader-writeto", buf.Bytes())
 	}
+	// the same stream with an empty chunk (a legal message: a chunk of size 0) before and after every
+	// chunk: what the receiver hands on must not change
+	if empty, err := codec.Marshal(&regattapb.SnapshotChunk{}); err == nil {
+		padded := [][]byte{empty}
+		for _, m := range ss.msgs {
+			padded = append(padded, m, empty)
+		}
+		var pb bytes.Buffer
+		if _, err := io.Copy(&pb, &snapshot.Reader{Stream: &recvStream{codec: codec, msgs: padded}}); err != nil {
+			vs = append(vs, viol{tag("reader-writeto+empty-chunks/error"), err.Error()})
+		} else {
+			compare("reader-writeto+empty-chunks", pb.Bytes())
+		}
+	}
 	// snapshot.Reader.Read with a sufficiently large buffer
 	var buf2 bytes.Buffer
 	rd := snapshot.Reader{Stream: &recvStream{codec: codec, msgs: ss.msgs}}
@@ -705,6 +719,19 @@ func shipAndCheck(codec encoding.Codec, raw []byte, want [][]byte, cuts []int) (
 		}
 		if err != nil {
 			break
+		}
+	}
+	if empty, err := codec.Marshal(&regattapb.RestoreMessage{Data: &regattapb.RestoreMessage_Chunk{Chunk: &regattapb.SnapshotChunk{}}}); err == nil && len(rc.msgs) > 0 {
+		// upload with an empty chunk after the info message and after every chunk
+		padded := [][]byte{rc.msgs[0], empty}
+		for _, m := range rc.msgs[1:] {
+			padded = append(padded, m, empty)
+		}
+		pcap := &restoreCapture{}
+		if err := (&regattaserver.BackupServer{Tables: pcap}).Restore(&restoreSrv{codec: codec, msgs: padded}); err != nil {
+			vs = append(vs, viol{tag("backup-restore+empty-chunks/error"), err.Error()})
+		} else {
+			compare("backup-restore+empty-chunks", pcap.got)
 		}
 	}
 	cap := &restoreCapture{}
@@ -921,7 +948,7 @@ func runFraming(r *evid.Run) {
 
 func Run(r *evid.Run) {
 	r.Check = "c18"
-	r.Rule("(A) codec: for every message type of the four proto packages, the empty value, every single-field setting to depth 3 (every scalar kind with several values incl. large, every enum value, every oneof arm, present-empty messages, present-default optional fields, 1- and 2-element lists, map entry), every PAIR of settings, and an everything-set value: encode with the registered codec, decode into a fresh object (equal incl. presence, identical re-encoding), agree with the standard protobuf implementation in both directions; SnapshotChunk additionally into an object recycled with ResetVT after holding every other payload. (B) compressors gzip/snappy/zstd via encoding.GetCompressor: 13 sizes x 3 contents, every ordered pair through the pooled writer/reader sequentially, read back whole / 1-byte / 7-byte; plus a free-running concurrent pass. (D) pooled compressor state: 2 threads x 1-2 compress+decompress round trips over 3 payloads, 4 program pairs per compressor, pool Get/Put and every Write/Close/Read boundary are scheduling points, all interleavings up to the preemption bound; every round trip exact, no object put into a pool twice. (C) framing: command files written by the real snapshot file writer, shipped by the real snapshot.Writer.ReadFrom with EVERY placement of <= 2 cuts and every uniform chunk size, received by snapshot.Reader (WriteTo and Read), and backup.Writer -> BackupServer.Restore (backupReader); received bytes and message boundaries must be identical; the upload also through a real server built by regattaserver.NewServer with the real backup.Writer for 10 chunk sizes x 3 table-name lengths (table name and bytes handed to the restore); plus an alignment sweep of multi-block snapshot files (first record of every size 0..109, then 2600 small records) written and read back message-wise so that 64 KiB block boundaries fall on every position of a record. Non-trivial: non-empty encoding / payload; distinct = distinct cases")
+	r.Rule("(A) codec: for every message type of the four proto packages, the empty value, every single-field setting to depth 3 (every scalar kind with several values incl. large, every enum value, every oneof arm, present-empty messages, present-default optional fields, 1- and 2-element lists, map entry), every PAIR of settings, and an everything-set value: encode with the registered codec, decode into a fresh object (equal incl. presence, identical re-encoding), agree with the standard protobuf implementation in both directions; SnapshotChunk additionally into an object recycled with ResetVT after holding every other payload. (B) compressors gzip/snappy/zstd via encoding.GetCompressor: 13 sizes x 3 contents, every ordered pair through the pooled writer/reader sequentially, read back whole / 1-byte / 7-byte; plus a free-running concurrent pass. (D) pooled compressor state: 2 threads x 1-2 compress+decompress round trips over 3 payloads, 4 program pairs per compressor, pool Get/Put and every Write/Close/Read boundary are scheduling points, all interleavings up to the preemption bound; every round trip exact, no object put into a pool twice. (C) framing: command files written by the real snapshot file writer, shipped by the real snapshot.Writer.ReadFrom with EVERY placement of <= 2 cuts and every uniform chunk size, received by snapshot.Reader (WriteTo and Read), and backup.Writer -> BackupServer.Restore (backupReader), each stream also with an empty chunk before and after every chunk; received bytes and message boundaries must be identical; the upload also through a real server built by regattaserver.NewServer with the real backup.Writer for 10 chunk sizes x 3 table-name lengths (table name and bytes handed to the restore); plus an alignment sweep of multi-block snapshot files (first record of every size 0..109, then 2600 small records) written and read back message-wise so that 64 KiB block boundaries fall on every position of a record. Non-trivial: non-empty encoding / payload; distinct = distinct cases")
 	runCodec(r)
 	runCompressors(r)
 	runFraming(r)
